@@ -13,9 +13,9 @@ theorem read_denotes : {w : Val} → {doc : Json} → Denotes w doc → fromJson
   | _, _, .bool b => by simp [fromJson]
   | _, _, .str x => by simp [fromJson]
   | _, _, .numTok h => numTok_decodes h
-  | _, _, .marker => by simp [fromJson, visitMap, s]
-  | _, _, .remove => by simp [fromJson, visitMap, s]
-  | _, _, .na => by simp [fromJson, visitMap, s]
+  | _, _, .marker => by simp [fromJson, visitMap, earlyReturn, s]
+  | _, _, .remove => by simp [fromJson, visitMap, earlyReturn, s]
+  | _, _, .na => by simp [fromJson, visitMap, earlyReturn, s]
   | _, _, .number hv hu hp => read_number hv hu hp
   | _, _, .ref hd hp => read_ref hd hp
   | _, _, .symbol hp => read_symbol hp
